@@ -38,8 +38,9 @@ type fileData struct {
 	modeOverride    *hackpadfs.FileMode
 	modTimeOverride time.Time
 
-	path string // path is stored as the "key", keeping it here is for generating hackpadfs.FileInfo's
-	fs   *FS
+	path    string // path is stored as the "key", keeping it here is for generating hackpadfs.FileInfo's
+	fs      *FS
+	unlinks uint64 // fs.unlinkCount(path) when the file was looked up or created
 }
 
 func (f *fileData) Mode() hackpadfs.FileMode {
@@ -63,8 +64,9 @@ func (fs *FS) getFile(path string) (*file, error) {
 		return nil, hackpadfs.ErrInvalid
 	}
 	f := fileData{
-		path: path,
-		fs:   fs,
+		path:    path,
+		fs:      fs,
+		unlinks: fs.unlinkCount(path),
 	}
 	txn, err := fs.store.Transaction(TransactionOptions{
 		Mode: TransactionReadOnly,
@@ -128,6 +130,9 @@ func (fs *FS) setFile(path string, file FileRecord) error {
 	if err == nil {
 		err = commitTxn(txn)
 	}
+	if err == nil && file == nil {
+		fs.noteUnlink(path)
+	}
 	return err
 }
 
@@ -190,8 +195,9 @@ func (fs *FS) newFile(path string, flag int, mode hackpadfs.FileMode) *file {
 	return &file{
 		flag: flag,
 		fileData: &fileData{
-			fs:   fs,
-			path: path,
+			fs:      fs,
+			path:    path,
+			unlinks: fs.unlinkCount(path),
 			runOnceFileRecord: runOnceFileRecord{
 				record: NewBaseFileRecord(0, time.Now(), mode, nil,
 					func() (blob.Blob, error) {
@@ -211,6 +217,10 @@ func (f *fileData) save() error {
 // saveOpen writes back changes made through an open file handle.
 // If the file was removed or renamed after it was opened, its name is not created again.
 func (f *fileData) saveOpen() error {
+	if f.fs.unlinkCount(f.path) != f.unlinks {
+		// the name was removed, renamed or replaced since: whatever is there now is not this file
+		return nil
+	}
 	_, err := f.fs.getFile(f.path)
 	if errors.Is(err, hackpadfs.ErrNotExist) || errors.Is(err, hackpadfs.ErrNotDir) {
 		return nil
